@@ -119,6 +119,26 @@ INFO = {
     "node based storage (non-trivial key or value): a reader finds an entry another thread has just inserted and dereferences its node without happens-before to its construction"),
  "r6-c10-vyukov-extract-ext-prev-lost": ("C10", "vyukov_hash_map::do_extract: the extension loop no longer advances extension_prev, a removal in the extension list writes bucket.head = found->next",
     ">= 128 buckets, >= 5 keys in one bucket, erase / extract of an extension key that is not the most recently inserted one: the items in front of it vanish"),
+ "r7-c02-qsbr-orphans-taken-before-cas": ("C02", "quiescent_state_based::try_update_epoch empties the global orphan list before the epoch CAS and only keeps the chain when the CAS succeeds",
+    "a thread exited with retired nodes, two other threads try to advance the same epoch: the one that took the orphans loses the CAS, the orphan (and every node in it) is leaked"),
+ "r7-c04-nikolaev-pop-next-after-retry": ("C04", "nikolaev_queue::do_pop checks node->_next only after the second dequeue attempt (the 'successor exists' observation no longer precedes the last failing dequeue)",
+    "a consumer finds the head node empty and is delayed before the _next load while producers fill, finalize and link a successor: the node is unlinked with completed pushes inside (values lost)"),
+ "r7-c05-vyukov-bounded-pop-strong-default-weak": ("C05", "vyukov_bounded_queue::try_pop_strong instantiates do_try_pop<default_to_weak> instead of do_try_pop<false>",
+    "policy::default_to_weak<true> and an explicit strong pop while the oldest push is reserved but unpublished and a later push has completed: the strong pop reports 'empty'"),
+ "r7-c08-hashmap-lazy-emplace-unguarded-successor": ("C08", "harris_michael_hash_map::do_get_or_emplace_lazy releases the successor's guard before the user factory runs and CASes against the raw pointer (re-introduces the repaired defect 1d5f91b in another shape)",
+    "the successor is erased and reclaimed while the factory runs, its address is re-used by a node linked at the same position: duplicate key"),
+ "r7-c09-set-erase-it-successor-unguarded": ("C09", "harris_michael_list_based_set::erase(iterator) unlinks first and creates the guard for the successor afterwards, without validation",
+    "another thread erases and reclaims exactly the successor between the unlink and the guard creation (hazard_pointer / hazard_eras): the returned iterator refers to freed memory"),
+ "r7-c10-vyukov-grow-ext-old-head": ("C10", "vyukov_hash_map::do_grow pushes a re-created extension item in front of old_bucket.head instead of new_bucket.head",
+    ">= 128 buckets, >= 4 keys that still collide after doubling while the extension pool is exhausted: keys twice in the new table / reachable only through the retired block"),
+ "r7-c12-deque-steal-retry-stale-bottom": ("C12", "chase_work_stealing_deque::try_steal retries a lost top CAS (weak CAS loop) against the bottom value it loaded before the first attempt",
+    "a thief delayed between its bottom load and its CAS while top advances and the owner pops two items back to back: item returned twice, top passes bottom"),
+ "r7-c15-qsbr-copy-assign-marked-null": ("C15", "quiescent_state_based guard_ptr copy assignment enters the region only if get() != nullptr while reset / destructor leave it whenever the marked pointer is non-zero",
+    "a guard holding a marked null pointer as source of a copy assignment: region counter one too low, another guard of the thread loses its protection (or the counter underflows)"),
+ "r7-c17-he-dynamic-no-relink": ("C17", "hazard_eras dynamic strategy: initialize_next_block() of the control block returns nullptr (like the static one), grown blocks are never re-linked into the free list",
+    "threads that need more than K eras, exit, and whose block is adopted by a thread that again needs more than K: one more block of max(K, total/2) eras per generation"),
+ "r7-c18-hp-copy-assign-ptr-before-alloc": ("C18", "hazard_pointer guard_ptr copy assignment stores the pointer before allocating the slot",
+    "static strategy with all K slots in use: the assignment throws and leaves the target claiming the object without a slot; a later acquire of the same pointer returns early, unprotected"),
 }
 rows = []
 for sid in sorted(INFO):
@@ -150,7 +170,7 @@ for sid in sorted(INFO):
                 demo_with_change=rd("demo_with.exit"), demo_without_change=rd("demo_without.exit"),
                 library_suite_with_change=rd("suite_with.log").splitlines()[-1] if rd("suite_with.log") != "?" else "?",
                 what_was_run="bin/eval_mutant.sh or bin/eval_mutant_a.sh (demo with/without the change, full library test-suite with the change, in the scratch worktree) "
-                             "and bin/eval_mutant_b.sh / bin/eval_seeded_all.sh (patch applied to /repo, quick checks, /repo restored)")
+                             "and bin/eval_mutant_b.sh / bin/eval_seeded_all.sh (patch applied to /repo, quick checks, /repo restored) or, for round 7, bin/eval_mutant_c.sh (quick checks pointed at the scratch worktree holding the change, XENIUM_REPO)")
     extra = os.path.join(d, "meta_extra.json")
     if os.path.exists(extra):
         meta.update(json.load(open(extra)))
